@@ -246,14 +246,69 @@ func callersBind(p *core.Program, rel string, fd *ast.FuncDecl) bool {
 			if cfd.Body == nil {
 				continue
 			}
-			// assignments `…, err = fd(…)`
+			// every call of fd, with what its result goes into: an error variable
+			// (`…, err = fd(…)`), or the operand of a type switch (`switch e := fd(…).(type)`)
 			type site struct {
 				pos token.Pos
 				v   types.Object
 			}
 			var sites []site
 			var assigns []site // every assignment to an error variable
+			accounted := map[*ast.CallExpr]bool{}
+			// bindsIn: a clause of the type switch for *file.Error calls Bind on the clause's value
+			bindsIn := func(ts *ast.TypeSwitchStmt) bool {
+				ok := false
+				for _, cl := range ts.Body.List {
+					cc := cl.(*ast.CaseClause)
+					isFE := false
+					for _, e := range cc.List {
+						if t := info.TypeOf(e); t != nil && strings.HasSuffix(t.String(), "file.Error") {
+							isFE = true
+						}
+					}
+					if !isFE || len(cc.List) != 1 {
+						continue
+					}
+					impl := info.Implicits[cc]
+					ast.Inspect(cc, func(n ast.Node) bool {
+						if c, isC := n.(*ast.CallExpr); isC {
+							if sel, isS := c.Fun.(*ast.SelectorExpr); isS && sel.Sel.Name == "Bind" {
+								if rid, isID := eng.Unparen(sel.X).(*ast.Ident); isID && impl != nil && info.Uses[rid] == impl {
+									ok = true
+								}
+							}
+						}
+						return true
+					})
+				}
+				return ok
+			}
+			switchOperand := func(ts *ast.TypeSwitchStmt) ast.Expr {
+				switch a := ts.Assign.(type) {
+				case *ast.AssignStmt:
+					if len(a.Rhs) == 1 {
+						if ta, ok := eng.Unparen(a.Rhs[0]).(*ast.TypeAssertExpr); ok {
+							return eng.Unparen(ta.X)
+						}
+					}
+				case *ast.ExprStmt:
+					if ta, ok := eng.Unparen(a.X).(*ast.TypeAssertExpr); ok {
+						return eng.Unparen(ta.X)
+					}
+				}
+				return nil
+			}
 			ast.Inspect(cfd.Body, func(n ast.Node) bool {
+				if ts, ok := n.(*ast.TypeSwitchStmt); ok {
+					if c, ok := switchOperand(ts).(*ast.CallExpr); ok && eng.CalleeOf(info, c) == fn {
+						accounted[c] = true
+						calls++
+						if bindsIn(ts) {
+							bound++
+						}
+					}
+					return true
+				}
 				as, ok := n.(*ast.AssignStmt)
 				if !ok || len(as.Lhs) == 0 {
 					return true
@@ -270,7 +325,15 @@ func callersBind(p *core.Program, rel string, fd *ast.FuncDecl) bool {
 				if len(as.Rhs) == 1 {
 					if c, ok := eng.Unparen(as.Rhs[0]).(*ast.CallExpr); ok && eng.CalleeOf(info, c) == fn {
 						sites = append(sites, site{as.Pos(), o})
+						accounted[c] = true
 					}
+				}
+				return true
+			})
+			// a call whose result goes anywhere else (returned directly, passed on) is unbound
+			ast.Inspect(cfd.Body, func(n ast.Node) bool {
+				if c, ok := n.(*ast.CallExpr); ok && !accounted[c] && eng.CalleeOf(info, c) == fn {
+					calls++
 				}
 				return true
 			})
@@ -284,6 +347,13 @@ func callersBind(p *core.Program, rel string, fd *ast.FuncDecl) bool {
 				}
 				ok := false
 				ast.Inspect(cfd.Body, func(n ast.Node) bool {
+					if ts, isTS := n.(*ast.TypeSwitchStmt); isTS && ts.Pos() > st.pos && ts.Pos() < end {
+						// switch e := err.(type) { case *file.Error: … e.Bind(src) }
+						if eid, isE := switchOperand(ts).(*ast.Ident); isE && objOf(info, eid) == st.v && bindsIn(ts) {
+							ok = true
+						}
+						return true
+					}
 					c, isC := n.(*ast.CallExpr)
 					if !isC || c.Pos() < st.pos || c.Pos() > end {
 						return true
@@ -413,6 +483,24 @@ func stackFieldBalanceRule(p *core.Program, r *core.Report, rule, rel, typeName,
 		return
 	}
 	info := pk.TypesInfo
+	if strings.HasPrefix(field, "[]") {
+		// the field named by its role: the one field of the type with this slice type
+		want, found := field, []string{}
+		if tn, ok := pk.Types.Scope().Lookup(typeName).(*types.TypeName); ok {
+			if st, ok := tn.Type().Underlying().(*types.Struct); ok {
+				for i := 0; i < st.NumFields(); i++ {
+					if types.TypeString(st.Field(i).Type(), func(p *types.Package) string { return p.Name() }) == want {
+						found = append(found, st.Field(i).Name())
+					}
+				}
+			}
+		}
+		if len(found) != 1 {
+			r.Unk(rule, rel+"."+typeName+"/stack discipline", "", fmt.Sprintf("expected one field of type %s in %s, found %d", want, typeName, len(found)))
+			return
+		}
+		field = found[0]
+	}
 	isField := func(e ast.Expr) bool {
 		sel, ok := eng.Unparen(e).(*ast.SelectorExpr)
 		if !ok || sel.Sel.Name != field {
